@@ -8,6 +8,7 @@ CONSTANTS
   FixKeyLen = TRUE
   FixKeyZero = TRUE
 INVARIANT TwoDefinitionsAgree
+INVARIANT KeyspaceDPIsKeyspace
 INVARIANT KeyspaceExact
 INVARIANT ThreeAgree
 CHECK_DEADLOCK FALSE
